@@ -14,7 +14,7 @@ RULE = ("exhaustive: every profile over m <= 3 alternatives with <= 3 distinct b
         "soc (both rules) and soi (fallback; Bucklin must refuse), plus toc/toi/cat/wmd labels (both must refuse); "
         "random: m <= 8, <= 9 distinct ballots, multiplicities <= 50: shared first choices, first-place majorities "
         "(exact, one short, tie at n/2), rotations, single-alternative profiles, truncated ballots whose counts never "
-        "reach the quota. non-trivial = >= 2 alternatives, >= 2 distinct ballots, some multiplicity > 1")
+        "reach the quota. histories (550 quick / 7000 thorough): one instance object through the append API, both rules, repeated-ballot appends that flip the majority, rules again on the same object, judged on the current multiplicity table. non-trivial = >= 2 alternatives, >= 2 distinct ballots, some multiplicity > 1")
 EXHAUSTIVE = {"quick": "m<=3, n<=3 distinct ballots, multiplicities<=2, soc/soi (+ toc/toi for the guards)",
               "thorough": "m<=3, n<=3 distinct ballots, multiplicities<=3; m=4 soc with n<=2, multiplicities<=2"}
 TRUSTED = ["modelled (mirror): singlewinner.py fallback_voting_winner, bucklin_voting_winner, decorators.py; the level "
@@ -171,8 +171,37 @@ def last_depth_profile(rng, alts):
     return prof
 
 
+def _call_rule14(inst, r, k):
+    from preflibtools.aggregation import singlewinner as W
+    return c06._win([W.fallback_voting_winner, W.bucklin_voting_winner][r], inst)
+
+
+def _default_sel14(m):
+    return [[0, 0], [1, 0]]
+
+
+def _pick_sel14(rng, m):
+    return [[rng.choice([0, 1]), 0]]
+
+
+def oracle_requests(c, r):
+    if c["op"] != "c14.hist":
+        return [(c["op"], c["payload"])]
+    if not isinstance(r, list):
+        return []
+    return [("c14.both", snap) for snap, res in r]
+
+
+def gen_histories(rng, count):
+    out = []
+    for _ in range(count):
+        out.append(case("c14.hist", c06.gen_history_actions(rng, rng.choice([0, 0, 1]), 2, _pick_sel14), gen="history"))
+    return out
+
+
 def generate(tier, seed):
     cases = _generate(tier, seed)
+    cases.extend(gen_histories(random.Random(1000003 * seed + 14014), 550 if tier == "quick" else 7000))
     rng = random.Random(1000003 * seed + 1414)
     out = []
     for c in cases:
@@ -248,12 +277,16 @@ def impl(c):
     from preflibtools.aggregation import singlewinner as W
     fns = {"fallback": W.fallback_voting_winner, "bucklin": W.bucklin_voting_winner}
     op, pl = c["op"], c["payload"]
+    if op == "c14.hist":
+        return c06.hist_run(pl, _call_rule14, _default_sel14)
     if op == "c14.both":
         return [c06._win(fns[nm], c06.build(pl)) for nm in NAMES]
     return c06._win(fns[op.split(".")[1]], c06.build(pl))
 
 
 def judge(c, r, mres):
+    if c["op"] == "c14.hist":
+        return c06.judge_history(c, r, mres, NAMES, 2, "fallback_spec / bucklin_spec / *_regroup on the current multiplicity table")
     m = mres[0]
     names = NAMES
     if c["op"] != "c14.both":
@@ -272,6 +305,8 @@ def judge(c, r, mres):
 
 
 def nontrivial(c, r, m):
+    if c["op"] == "c14.hist":
+        return True
     ip = c["payload"]
     return len(ip[1]) >= 2 and len(ip[4]) >= 2 and any(k > 1 for _, k in ip[4])
 
@@ -304,6 +339,8 @@ def _exact_half_before(ip, d):
 
 
 def stats(c, r, m):
+    if c["op"] == "c14.hist":
+        return c06.history_stats(c, r, m, NAMES, 2)
     ip = c["payload"]
     out = ["type=%s" % DT[ip[0]], "m=%d" % len(ip[1]), "ballots=%s" % (len(ip[4]) if len(ip[4]) <= 3 else ">3")]
     if c["tags"].get("gen"):
@@ -341,6 +378,8 @@ def stats(c, r, m):
 
 
 def describe(c):
+    if c["op"] == "c14.hist":
+        return c06.describe_history(c, NAMES)
     ip = c["payload"]
     return {"op": c["op"], "data_type": DT[ip[0]], "alternatives": ip[1],
             "ballots": [{"order": o, "multiplicity": k} for o, k in ip[4]],
@@ -348,6 +387,11 @@ def describe(c):
 
 
 def shrink(c):
+    if c["op"] == "c14.hist":
+        for c2 in c06.shrink_history(c):
+            if all(a[0] == 0 or all(rr < 2 for rr, _ in a[1]) for a in c2["payload"]):
+                yield c2
+        return
     dt, alts, _, _, prof = c["payload"]
     if len(prof) > 1:
         for i in range(len(prof)):
